@@ -18,8 +18,11 @@ RULE = ("part 'gfa1': generated GFA1 graphs (segments with LN and/or sequence, l
         "counterpart agree with the model's interval arithmetic ('$' exactly at the segment length) and "
         "alignment direction; paths visit the same oriented segments through the same edges; tags carried; "
         "(3) there-and-back equals the source modulo ID/LN/VN; (4) no-counterpart records are absent or the call "
-        "raises a gfapy.Error. non-trivial = >= 1 edge with an I or D in its CIGAR and >= 2 distinct "
-        "orientation pairs; distinct by hash")
+        "raises a gfapy.Error. Half of the documents of both parts have their lines shuffled (paths before "
+        "links before segments: forward references). Part 'gfa1-only-ops': such GFA1 graphs with = X N S H in "
+        "the overlap of one or all edges at vlevel 0..3: whole-graph and per-line conversion raise a "
+        "gfapy.Error or write valid GFA2 without those operations. non-trivial = >= 1 edge with an I or D in "
+        "its CIGAR and >= 2 distinct orientation pairs (gfa1-only-ops: >= 1 affected edge); distinct by hash")
 ASSUMPTIONS = [
     "GFA1 sources: every segment has a length, every overlap is specified with GFA2-legal operations (M I D P)",
     "a link's overlap never covers a whole segment (in GFA2 such an interval is, by definition, a containment) and a containment's CIGAR consumes exactly the contained segment",
@@ -511,11 +514,89 @@ def _tuplify(x):
     return x
 
 
+def reorder(r, doc):
+    """Half of the documents in another line order (paths before their links, links before
+    their segments: forward references must convert like backward ones)."""
+    if gen.chance(r, 0.5):
+        head = [l for l in doc["lines"] if l[0] == "H"]
+        rest = [l for l in doc["lines"] if l[0] != "H"]
+        r.shuffle(rest)
+        doc["lines"] = head + rest
+        doc["reordered"] = True
+    return doc
+
+
 @st.composite
 def st_gfa1(draw):
     r = draw(st.randoms(use_true_random=False))
-    doc = build_conv_gfa1(r)
+    doc = reorder(r, build_conv_gfa1(r))
     return {"doc": doc}
+
+
+GFA1_ONLY = {"=": "M", "X": "M", "N": "D", "S": "I"}
+
+
+def prop_gfa1_only_ops(case):
+    """An overlap with an operation GFA2 does not have (= X N S H) has no counterpart: the
+    conversion raises a gfapy.Error or leaves a valid GFA2 document, at every vlevel."""
+    doc, vlevel = case["doc"], case["vlevel"]
+    lines = gen.doc_lines(doc)
+    text = "\n".join(lines)
+    for how in ("to_gfa2_s", "to_gfa2", "line"):
+        try:
+            g = gfapy.Gfa(lines, version="gfa1", vlevel=vlevel)
+            if how == "line":
+                outs = []
+                for l in g.edges:
+                    if str(l.overlap) in case["affected"]:
+                        outs.append(l.to_gfa2_s())
+                        outs.append(str(l.to_gfa2()))
+                out = "\n".join(outs)
+            else:
+                out = g.to_gfa2_s() if how == "to_gfa2_s" else str(g.to_gfa2())
+        except GfapyError:
+            continue
+        except Exception as e:
+            raise Violation("conversion-foreign", "%s at vlevel %d raised %s: %s\n%s" % (how, vlevel, type(e).__name__, str(e)[:300], text), type(e).__name__)
+        if how == "line":
+            for o in outs:
+                try:
+                    gfapy.Line(o, version="gfa2", vlevel=3).validate()
+                except Exception as e:
+                    raise Violation("mistranslated", "per-line conversion at vlevel %d wrote %r, which is not a valid GFA2 line (%s)\n%s" % (vlevel, o, type(e).__name__, text), "line")
+        else:
+            recs = parse_out(out, "gfa2", "%s output (source with GFA1-only CIGAR operations, vlevel %d)" % (how, vlevel))
+            bad = [x.text() for x in recs if x.rt == "E" and set(x.pos[7]) & set("=XNSH")]
+            if bad:
+                raise Violation("mistranslated", "GFA1-only CIGAR operations written to GFA2: %s" % bad)
+    return {"nt": bool(case["affected"]), "vlevel0": vlevel == 0}
+
+
+@st.composite
+def st_gfa1_only_ops(draw):
+    r = draw(st.randoms(use_true_random=False))
+    doc = build_conv_gfa1(r)
+    edges = [l for l in doc["lines"] if l[0] in "LC"]
+    affected = []
+    for l in (edges if gen.chance(r, 0.3) else [gen.choice(r, edges)] if edges else []):
+        ops = G.canon_cigar(l[1][-1])
+        out = []
+        changed = False
+        for n, op in ops:
+            alt = [k for k, v in GFA1_ONLY.items() if v == op]
+            if alt and (not changed or gen.chance(r, 0.5)):
+                op = gen.choice(r, alt)
+                changed = True
+            out.append("%d%s" % (n, op))
+        if not changed or gen.chance(r, 0.2):
+            out.insert(r.randrange(len(out) + 1), "%dH" % r.randint(1, 3))
+        l[1][-1] = "".join(out)
+        affected.append(l[1][-1])
+        # a path over this link states the same overlap
+    for p in [l for l in doc["lines"] if l[0] == "P"]:
+        p[1][2] = "*"
+    doc["lines"] = [l for l in doc["lines"] if l[0] != "P" or gen.chance(r, 0.5)]
+    return {"doc": doc, "vlevel": gen.choice(r, [0, 0, 1, 2, 3]), "affected": affected}
 
 
 @st.composite
@@ -523,6 +604,7 @@ def st_gfa2(draw):
     r = draw(st.randoms(use_true_random=False))
     doc = build_conv_gfa1(r)
     doc2, expect, internal = to_gfa2_doc(r, doc)
+    reorder(r, doc2)
     ops = set()
     ors = set()
     for l in doc["lines"]:
@@ -535,4 +617,5 @@ def st_gfa2(draw):
 def parts(tier):
     q = tier == "quick"
     return [Part("gfa1", prop_gfa1, strategy=st_gfa1(), n=300 if q else 1500, quick_shards=2),
-            Part("gfa2", prop_gfa2, strategy=st_gfa2(), n=300 if q else 1500, quick_shards=2)]
+            Part("gfa2", prop_gfa2, strategy=st_gfa2(), n=300 if q else 1500, quick_shards=2),
+            Part("gfa1-only-ops", prop_gfa1_only_ops, strategy=st_gfa1_only_ops(), n=150 if q else 800)]
